@@ -238,6 +238,34 @@ theorem v1_C06_history_other_tracks (o : FOps) (d : Db) (h : List SetOp) (id : I
     (hne : ∀ op ∈ h, op.id ≠ id) : (dbRun o d h).1.rows id = d.rows id :=
   dbRun_other o h d id hne
 
+/-- **Handles of tracks that are not (or no longer) in the database.**  Every setter throws — never
+returns normally, never undefined behaviour — so nothing is written for the missing track; `snapshot()`
+and the getters that read a `Track` column throw `track_deleted`; `is_valid()` is false. -/
+theorem v1_C06_absent_track (o : FOps) (d : Db) (id : Int) (h : d.rows id = none) :
+    (∀ (f : Field) (v : f.ty), ∃ e, dbSet o d id f v = .throw e) ∧
+    dbSnap o d id = .throw (.dj "track_deleted") ∧ dbIsValid d id = false ∧
+    (∀ f : Field, f.trackColumn = true → dbGet o d id f = .throw (.dj "track_deleted")) := by
+  refine ⟨fun f v => dbSet_absent o d id f v h, ?_, ?_, ?_⟩
+  · simp only [dbSnap, h]
+  · simp only [dbIsValid, h]; rfl
+  · intro f hf; simp only [dbGet, h, hf, if_true]
+
+/-- **`remove_track`** makes the track absent and leaves the rows (hence every getter and the snapshot)
+of every other track, the schema and the invariant as they were; so a history with removals in it
+decomposes into setter histories (`v1_C06_history`) between removals. -/
+theorem v1_C06_remove_track (d : Db) (id : Int) :
+    (dbRemove d id).rows id = none ∧ (dbRemove d id).schema = d.schema ∧
+    (∀ id', id' ≠ id → (dbRemove d id).rows id' = d.rows id') ∧ (DbInv d → DbInv (dbRemove d id)) := by
+  refine ⟨aget_filter_ne _ _, rfl, fun id' hne => aget_filter_other _ _ _ hne, ?_⟩
+  intro hinv id' r hr
+  by_cases hid : id' = id
+  · subst hid
+    have : (dbRemove d id').rows id' = none := aget_filter_ne _ _
+    rw [this] at hr; cases hr
+  · have : (dbRemove d id).rows id' = d.rows id' := aget_filter_other _ _ _ hid
+    rw [this] at hr
+    exact hinv _ _ hr
+
 /-! ### what `Spec.replay` means: the lens laws of the Spec itself -/
 
 /-- get ∘ put on the Spec record (for a per-slot field: when the slot exists). -/
@@ -330,6 +358,10 @@ example : Spec.independent (.hotCueAt 7) (.hotCueAt 0) = true ∧ Spec.independe
 /-- the path collision is refused by `UNIQUE(path)` -/
 example : exThrown (dbSet exOps exDb 2 .relativePath [97, 47, 49, 46, 109, 112, 51]) = some .sqlite_error := by
   decide +kernel
+/-- a removed track: gone, its setters throw, the other track keeps its snapshot -/
+example : (dbRemove exDb 2).rows 2 = none ∧ (dbRemove exDb 2).rows 1 = exDb.rows 1 := by decide +kernel
+example : exThrown (dbSet exOps (dbRemove exDb 2) 2 .title (some [65])) = some (.dj "track_deleted") ∧
+    exThrown (dbSet exOps (dbRemove exDb 2) 2 .mainCue none) = some .runtime_error := by decide +kernel
 example : getDerived exRows .filename = [49, 46, 109, 112, 51] ∧ getDerived exRows .fileExtension = [109, 112, 51] := by
   decide +kernel
 
